@@ -475,6 +475,15 @@ func (sc *StorageCar) Finalize() error {
 	}
 
 	if sc.opts.WriteAsCarV1 {
+		// Nothing more to write for a CARv1, but the CAR is finalized all the same:
+		// as for a CARv2 (and as blockstore.ReadWrite does in both modes), the
+		// storage must not accept further writes that would change the file.
+		sc.mu.Lock()
+		defer sc.mu.Unlock()
+		if sc.closed {
+			return fmt.Errorf("called Finalize on a closed storage CAR")
+		}
+		sc.closed = true
 		return nil
 	}
 
